@@ -41,6 +41,33 @@ func customCodec(t reflect.Type) bool {
 	return false
 }
 
+// codecsOf lists the codec interfaces the type (value or pointer receiver) implements
+func codecsOf(t reflect.Type) []string {
+	var out []string
+	for _, c := range []struct {
+		name string
+		it   reflect.Type
+	}{{"json.Marshaler", jsonMarshalerT}, {"json.Unmarshaler", jsonUnmarshalerT},
+		{"encoding.TextMarshaler", textMarshalerT}, {"encoding.TextUnmarshaler", textUnmarshalerT}} {
+		if t.Implements(c.it) || reflect.PointerTo(t).Implements(c.it) {
+			out = append(out, c.name)
+		}
+	}
+	return out
+}
+
+// typesIn: t and every type nested in it through slices, arrays, pointers and maps (keys and elements)
+func typesIn(t reflect.Type, out *[]reflect.Type) {
+	*out = append(*out, t)
+	switch t.Kind() {
+	case reflect.Slice, reflect.Array, reflect.Ptr:
+		typesIn(t.Elem(), out)
+	case reflect.Map:
+		typesIn(t.Key(), out)
+		typesIn(t.Elem(), out)
+	}
+}
+
 func leanStr(s string) string {
 	var b strings.Builder
 	b.WriteByte('"')
@@ -254,9 +281,11 @@ func init() {
 		queue := []reflect.Type{reflect.TypeOf(poly.Sequence{})}
 		seen := map[reflect.Type]bool{queue[0]: true}
 		first := true
+		var order []reflect.Type
 		for len(queue) > 0 {
 			t := queue[0]
 			queue = queue[1:]
+			order = append(order, t)
 			text, reach, err := structTable(t)
 			if err != nil {
 				return "", err
@@ -272,6 +301,36 @@ func init() {
 					queue = append(queue, r)
 				}
 			}
+		}
+		b.WriteString("]\n\n")
+		// custom codecs: every struct type reachable from poly.Sequence (the root included) and every type that
+		// occurs in a field (the field's type, slice / array / map / pointer element and key types), with the
+		// json / text (un)marshaler interfaces it implements through a value or a pointer receiver
+		b.WriteString("/-- (type, codec interfaces it implements): must all be empty for the model to be the JSON form -/\n")
+		b.WriteString("def polyCodecs : List (String × List String) := [\n")
+		var all []reflect.Type
+		done := map[reflect.Type]bool{}
+		for _, t := range order {
+			typesIn(t, &all)
+			for i := 0; i < t.NumField(); i++ {
+				typesIn(t.Field(i).Type, &all)
+			}
+		}
+		firstC := true
+		for _, t := range all {
+			if done[t] {
+				continue
+			}
+			done[t] = true
+			var cs []string
+			for _, c := range codecsOf(t) {
+				cs = append(cs, leanStr(c))
+			}
+			if !firstC {
+				b.WriteString(",\n")
+			}
+			firstC = false
+			fmt.Fprintf(&b, "  (%s, [%s])", leanStr(t.String()), strings.Join(cs, ", "))
 		}
 		b.WriteString("]\n\nend PolyVerif.Gen\n")
 		return b.String(), nil
